@@ -288,7 +288,9 @@ def extract(ctx: Ctx) -> None:
     idle_cond = idle_delay = post_body = reset_top = None
     for st in loop.body:
         text = pyextract.norm(st)
-        if isinstance(st, ast.If) and not st.orelse and len(st.body) == 1 and reset_top is None and not steps \
+        if text == "await asyncio.sleep(0)" and not steps:
+            steps.append("Step.yieldToLoop")     # a zero-time yield at the top of every iteration: no time passes
+        elif isinstance(st, ast.If) and not st.orelse and len(st.body) == 1 and reset_top is None and steps in ([], ["Step.yieldToLoop"]) \
                 and pyextract.norm(st.body[0]) == "state = progression.State.from_scratch().with_handlers([handler])":
             reset_top = pyextract.BoolTranslator(TOP_VOCAB).tr(st.test)     # when the carried state is replaced by a fresh one
             steps.append("Step.resetUnlessFailed")
